@@ -10,7 +10,10 @@ import (
 )
 
 // runDriver pipes the request lines to the Lean driver and returns one answer per line.
-func runDriver(reqs []string) ([]string, error) {
+func runDriver(reqs []string) ([]string, error) { return runDriverN(reqs, len(reqs)) }
+
+// runDriverN: `want` answer lines are expected (a trace block is answered by one line).
+func runDriverN(reqs []string, want int) ([]string, error) {
 	path := os.Getenv("NLE_DRIVER")
 	if path == "" {
 		path = "/verif/lean/.lake/build/bin/nledriver"
@@ -54,8 +57,8 @@ func runDriver(reqs []string) ([]string, error) {
 	if err := cmd.Wait(); err != nil {
 		return out, fmt.Errorf("driver: %w", err)
 	}
-	if len(out) != len(reqs) {
-		return out, fmt.Errorf("driver answered %d lines for %d requests", len(out), len(reqs))
+	if len(out) != want {
+		return out, fmt.Errorf("driver answered %d lines, expected %d", len(out), want)
 	}
 	return out, nil
 }
